@@ -96,6 +96,40 @@ Definition prep (v : val) : val :=
       list_v (list_v bytes_v) (prep_segs (in_dfile v));
       list_v prep_query (v_list (fun x => x) (v_nth 5 v)) ].
 
+(** the same without the queries: what the extracted pipeline hands to [run_C20] / [check_C20] / [agree_C20] for the
+    [create], save / load and [load] parts; the queries are answered and judged at the float level (C20_Float.v) with
+    [closest_m] / [check_closest_m], which need no oracle look-up *)
+Definition prep0 (v : val) : val :=
+  L [ v_nth 0 v;
+      list_v prep_file (v_list (fun x => x) (v_nth 1 v));
+      v_nth 2 v;
+      bytes_v (prep_dfile (in_dfile v));
+      list_v (list_v bytes_v) (prep_segs (in_dfile v));
+      L [] ].
+Definition prep_queries (v : val) : list query := map v_query (map prep_query (v_list (fun x => x) (v_nth 5 v))).
+
+(** [check_closest] with the model's own key segmentation instead of the oracle look-up: is the answer [a] to the
+    query [q] right for the dictionary [d]? (an entry of [d] at minimal [kdist_m], none at that distance more frequent;
+    the empty answer exactly on the empty dictionary) *)
+Definition check_closest_m (d : dict) (q : query) (a : val) : bool :=
+  match d with
+  | [] => match a with L [_; L []] => true | _ => false end
+  | _ =>
+    let l := map (fun e => (kdist_m (fst q) (snd (snd q)) e, e)) d in
+    match a with
+    | L [_; L [L [w; I f]]] =>
+      let w := v_bytes w in
+      let f := Z.to_N f in
+      match find (fun p : Q * (word * N) => bytes_eqb (fst (snd p)) w && (snd (snd p) =? f)) l with
+      | None => false
+      | Some (dw, _) =>
+        forallb (fun p : Q * (word * N) =>
+                   Qle_bool dw (fst p) && (if Qeq_bool (fst p) dw then snd (snd p) <=? f else true)) l
+      end
+    | _ => false
+    end
+  end.
+
 Definition run_C20b (v : val) : val := run_C20u (prep v).
 Definition check_C20b (v out : val) : bool := check_C20u (prep v) out.
 
